@@ -451,7 +451,7 @@ func init() {
 			}
 			defer sys.Close()
 			r := e.Rand("c09sys", c.Strategy, c.Max, c.Idx)
-			keys := []string{"10.1.1.1", "2001:db8::9", "2001:db8::1", "2001:db8::2", "fe80::1%eth0", "10.1.1.11", "not-an-ip", "a b", strings.Repeat("k", 200), "10.1.1.1 ", " 10.1.1.2", "x,y"}
+			keys := []string{"10.1.1.1", "2001:db8::9", "2001:db8::1", "2001:db8::2", "fe80::1%eth0", "10.1.1.11", "10.1.1.77", "::ffff:10.1.1.77", "2001:DB8::9", "not-an-ip", "a b", strings.Repeat("k", 200), "10.1.1.1 ", " 10.1.1.2", "x,y"}
 			type cl struct {
 				hdr  [][2]string
 				attr string
@@ -492,6 +492,7 @@ func init() {
 				o.Obs("sys_requests_on_reused_connection", 1)
 				return resp.StatusCode, string(b)
 			}
+			respelled := map[string]bool{"10.1.1.77": true, "::ffff:10.1.1.77": true, "2001:DB8::9": true, "2001:db8::9": true}
 			model := map[string]int{} // admitted so far per attributed client; no time passes below, so the allowance is max
 			total429 := 0
 			t0 := time.Now()
@@ -517,6 +518,11 @@ func init() {
 					if arrived != 0 {
 						o.Viol("C09|sys|forwarded-after-429", ctx+": answered 429 but the request reached a backend", nil)
 						return
+					}
+					// two spellings of one address (IPv4-mapped form, upper case): whether they are one client or two is
+					// the implementation's choice, so only the upper bound is asserted for them
+					if respelled[c1.attr] {
+						break
 					}
 					if model[c1.attr] < c.Max {
 						o.Viol("C09|sys|refused-within-burst", fmt.Sprintf("%s: refused although only %d of %d burst requests were used (attribution or isolation error)", ctx, model[c1.attr], c.Max), nil)
